@@ -204,7 +204,39 @@ def table_send(chk: Check, repo: Repo) -> None:
     chk.ob("wrap-from-authenticate-on", con.site(), ok, "connect(): handshake (session key) precedes initialized=True, which precedes the SessionAuthenticate request (so everything after the session request is wrapped)", key="wrap-from-authenticate")
 
 
+def fresh_session(chk: Check, repo: Repo) -> None:
+    """Every connect() starts a session nothing recorded earlier can be replayed into: before the SessionRequest goes
+    out, on every path, a new ECDH key pair is generated (so the session key differs from every earlier one) and both
+    sequence counters are reset; the key pair has no other writer."""
+    con = repo.func(M, "SecureSession.connect")
+    cfg = CFG(con.node)
+    req = [n for n in cfg.nodes if n.ast is not None and n.kind == "stmt" and any(method_name(c) == "Session" for c in calls(n.ast))]
+    if len(req) != 1:
+        raise AnalysisError("SecureSession.connect: expected one Session(...) request")
+
+    def assigns(pred) -> list:
+        out = []
+        for n in cfg.nodes:
+            if n.kind == "stmt" and isinstance(n.ast, (ast.Assign, ast.AnnAssign)) and pred(n.ast):
+                out.append(n)
+        return out
+    kp = assigns(lambda a: isinstance(a.value, ast.Call) and call_name(a.value) == "generate_ecdh_key_pair" and any(ast.unparse(t) == "self._private_key" for tt in (a.targets if isinstance(a, ast.Assign) else [a.target]) for t in (tt.elts if isinstance(tt, ast.Tuple) else [tt])))
+    ok_k = len(kp) == 1 and cfg.dominates(kp[0].id, req[0].id)
+    chk.ob("connect-generates-a-fresh-key-pair", con.site(kp[0].ast if kp else None), ok_k, "connect(): `self._private_key, self.public_key = generate_ecdh_key_pair()` is executed on every path before the SessionRequest" if ok_k else "connect(): the ECDH key pair is not regenerated on every path before the SessionRequest — a reconnect re-uses the key, the recorded SessionResponse of an earlier session verifies again and yields the same session key, so that session's wrapped frames are accepted as fresh", key="fresh|keypair")
+    pub = [k for c in calls(req[0].ast) if method_name(c) == "Session" for k in c.keywords if k.arg == "ecdh_client_public_key"]
+    chk.ob("connect-generates-a-fresh-key-pair", con.site(req[0].ast), len(pub) == 1 and ast.unparse(pub[0].value) == "self.public_key", "the SessionRequest carries the public key generated in this connect()", key="fresh|pubkey-sent")
+    for attr, val in (("_sequence_number", 0), ("_sequence_number_received", -1)):
+        ws_ = assigns(lambda a, attr=attr: any(ast.unparse(t) == f"self.{attr}" for t in (a.targets if isinstance(a, ast.Assign) else [a.target])))
+        okc = len(ws_) == 1 and repo.fold(ws_[0].ast.value, con.module, con.cls) == val and cfg.dominates(ws_[0].id, req[0].id)
+        chk.ob("connect-resets-the-sequence-counters", con.site(ws_[0].ast if ws_ else None), okc, f"connect(): self.{attr} = {val} on every path before the SessionRequest", key=f"fresh|{attr}")
+    for attr in ("_private_key", "public_key"):
+        ws_ = [w for w in attr_writes(repo, attr, include_mutators=False) if w.func.cls is not None and w.func.cls.name == "SecureSession"]
+        owners = sorted({w.func.name for w in ws_})
+        chk.ob("connect-generates-a-fresh-key-pair", con.site(), owners == ["connect"], f"self.{attr} is written only in {owners}", key=f"fresh|writers|{attr}")
+
+
 def run(chk: Check, repo: Repo) -> None:
+    fresh_session(chk, repo)
     table_receive(chk, repo)
     check_decrypt(chk, repo)
     table_send(chk, repo)
